@@ -123,27 +123,188 @@ fn lambert_w0(x: f64) -> f64 {
     w
 }
 
-pub fn eval(expr: Node) -> Result<Decimal, Box<dyn error::Error>> {
+type EvalResult = Result<Decimal, Box<dyn error::Error>>;
+
+// The arithmetic of every node lives in a small helper so that the frame of the recursive `eval`
+// stays small: a chain of 250 prefix signs, factorials or superscripts nests `eval` that deep, and an
+// unoptimised build must not exhaust a 2 MiB thread stack on a 256 character input.
+
+fn add(a: Decimal, b: Decimal) -> EvalResult {
+    Ok(a.checked_add(b).ok_or("Decimal overflow")?)
+}
+
+fn subtract(a: Decimal, b: Decimal) -> EvalResult {
+    Ok(a.checked_sub(b).ok_or("Decimal overflow")?)
+}
+
+fn multiply(a: Decimal, b: Decimal) -> EvalResult {
+    Ok(a.checked_mul(b).ok_or("Decimal overflow")?)
+}
+
+fn divide(a: Decimal, b: Decimal) -> EvalResult {
+    Ok(a.checked_div(b)
+        .ok_or("Division by zero or decimal overflow")?)
+}
+
+fn modulo(a: Decimal, b: Decimal) -> EvalResult {
+    Ok(a.checked_rem(b)
+        .ok_or("Division by zero or decimal overflow")?)
+}
+
+fn pow(a: Decimal, b: Decimal) -> EvalResult {
+    Ok(a.checked_powd(b).ok_or("Decimal overflow")?)
+}
+
+fn ln(x: Decimal) -> EvalResult {
+    Ok(x.checked_ln()
+        .ok_or("The logarithm is only defined for positive numbers")?)
+}
+
+fn lb(x: Decimal) -> EvalResult {
+    Ok(ln(x)?
+        .checked_div(Decimal::new(2, 0).ln())
+        .ok_or("Decimal overflow")?)
+}
+
+fn log(x: Decimal, base: Decimal) -> EvalResult {
+    Ok(ln(x)?
+        .checked_div(ln(base)?)
+        .ok_or("Division by zero or decimal overflow")?)
+}
+
+fn exp(x: Decimal) -> EvalResult {
+    Ok(x.checked_exp().ok_or("Decimal overflow")?)
+}
+
+fn sqrt(x: Decimal) -> EvalResult {
+    match x.sqrt() {
+        Some(result) => Ok(result),
+        None => Err("Unable to compute the square root of negative number".into()),
+    }
+}
+
+fn root(n_th: Decimal, x: Decimal) -> EvalResult {
+    let exponent = Decimal::new(1, 0)
+        .checked_div(n_th)
+        .ok_or("Division by zero")?;
+    pow(x, exponent)
+}
+
+fn factorial(sub_result: Decimal) -> EvalResult {
+    if sub_result >= Decimal::ZERO {
+        if (sub_result % Decimal::new(1, 0)) > Decimal::ZERO {
+            Ok(gamma(sub_result + Decimal::new(1, 0)).ok_or("Decimal overflow")?)
+        } else {
+            let mut factorial_result = Decimal::new(1, 0);
+            for i in 2..=sub_result.to_i64().ok_or("Decimal overflow")? {
+                #[cfg(feature = "verif_hooks")]
+                crate::verif_hooks::tick_loop();
+                factorial_result = factorial_result
+                    .checked_mul(Decimal::new(i, 0))
+                    .ok_or("Decimal overflow")?;
+            }
+            Ok(factorial_result)
+        }
+    } else if (sub_result % Decimal::new(1, 0)) == Decimal::ZERO {
+        Err("The factorial function is not defined for {}.".into())
+    } else {
+        Ok(gamma(sub_result + Decimal::new(1, 0)).ok_or("Decimal overflow")?)
+    }
+}
+
+fn lambert_w(sub_expr: Decimal) -> EvalResult {
+    if sub_expr < -Decimal::new(-1, 0).exp() {
+        return Err("The Lambert W function is not defined for {}.".into());
+    }
+    // The iteration is carried out in double precision: it converges to rounding error there
+    // and cannot leave the Decimal range on the way.
+    let x = sub_expr.to_f64().ok_or("Decimal overflow")?;
+    Ok(Decimal::from_f64(lambert_w0(x)).ok_or("Decimal overflow")?)
+}
+
+fn ilog(mut n: Decimal, b: Decimal) -> EvalResult {
+    let mut x = Decimal::ZERO;
+    while n > Decimal::new(1, 0) {
+        #[cfg(feature = "verif_hooks")]
+        crate::verif_hooks::tick_loop();
+        x += Decimal::new(1, 0);
+        let next = n
+            .checked_log10()
+            .and_then(|log_n| log_n.checked_div(b.checked_log10()?))
+            .ok_or("The iterated logarithm is not defined for this base.")?
+            .floor();
+        if next >= n {
+            return Err("The iterated logarithm does not terminate for this base.".into());
+        }
+        n = next;
+    }
+    Ok(x)
+}
+
+fn eval_all(args: Arc<Vec<Node>>) -> Result<Vec<Decimal>, Box<dyn error::Error>> {
+    let mut results = vec![];
+    for arg in <Vec<Node> as Clone>::clone(&args).into_iter() {
+        results.push(eval(arg)?);
+    }
+    Ok(results)
+}
+
+fn min(values: Vec<Decimal>) -> EvalResult {
+    if values.len() > 1 {
+        let mut result = Decimal::MAX;
+        for value in values {
+            result = value.min(result);
+        }
+        Ok(result)
+    } else {
+        Ok(values.first().copied().unwrap_or(Decimal::ZERO))
+    }
+}
+
+fn max(values: Vec<Decimal>) -> EvalResult {
+    if values.len() > 1 {
+        let mut result = Decimal::MIN;
+        for value in values {
+            result = value.max(result);
+        }
+        Ok(result)
+    } else {
+        Ok(values.first().copied().unwrap_or(Decimal::ZERO))
+    }
+}
+
+fn avg(values: Vec<Decimal>) -> EvalResult {
+    let mut result = Decimal::ZERO;
+    for value in values.iter() {
+        result = result.checked_add(*value).ok_or("Decimal overflow")?;
+    }
+    Ok(result / Decimal::new(values.len() as i64, 0))
+}
+
+fn med(mut results: Vec<Decimal>) -> EvalResult {
+    results.sort_by(|a, b| a.partial_cmp(b).unwrap());
+    let len = results.len();
+    if len % 2 == 0 {
+        Ok(results[len >> 1]
+            .checked_add(results[(len >> 1) - 1])
+            .ok_or("Decimal overflow")?
+            / Decimal::new(2, 0))
+    } else {
+        Ok(results[len >> 1])
+    }
+}
+
+pub fn eval(expr: Node) -> EvalResult {
     #[cfg(feature = "verif_hooks")]
     crate::verif_hooks::tick();
     use self::Node::*;
     match expr {
         Number(i) => Ok(i),
-        Add(expr1, expr2) => Ok(eval(*expr1)?
-            .checked_add(eval(*expr2)?)
-            .ok_or("Decimal overflow")?),
-        Subtract(expr1, expr2) => Ok(eval(*expr1)?
-            .checked_sub(eval(*expr2)?)
-            .ok_or("Decimal overflow")?),
-        Multiply(expr1, expr2) => Ok(eval(*expr1)?
-            .checked_mul(eval(*expr2)?)
-            .ok_or("Decimal overflow")?),
-        Divide(expr1, expr2) => Ok(eval(*expr1)?
-            .checked_div(eval(*expr2)?)
-            .ok_or("Division by zero or decimal overflow")?),
-        Modulo(expr1, expr2) => Ok(eval(*expr1)?
-            .checked_rem(eval(*expr2)?)
-            .ok_or("Division by zero or decimal overflow")?),
+        Add(expr1, expr2) => add(eval(*expr1)?, eval(*expr2)?),
+        Subtract(expr1, expr2) => subtract(eval(*expr1)?, eval(*expr2)?),
+        Multiply(expr1, expr2) => multiply(eval(*expr1)?, eval(*expr2)?),
+        Divide(expr1, expr2) => divide(eval(*expr1)?, eval(*expr2)?),
+        Modulo(expr1, expr2) => modulo(eval(*expr1)?, eval(*expr2)?),
         Negative(expr1) => Ok(-(eval(*expr1)?)),
         Abs(sub_expr) => Ok(eval(*sub_expr)?.abs()),
         Floor(sub_expr) => Ok(eval(*sub_expr)?.floor()),
@@ -151,148 +312,24 @@ pub fn eval(expr: Node) -> Result<Decimal, Box<dyn error::Error>> {
         Round(sub_expr) => Ok(eval(*sub_expr)?.round()),
         Truncate(sub_expr) => Ok(eval(*sub_expr)?.trunc()),
         Sign(sub_expr) => Ok(eval(*sub_expr)?.signum()),
-        Ln(sub_expr) => Ok(eval(*sub_expr)?
-            .checked_ln()
-            .ok_or("The logarithm is only defined for positive numbers")?),
-        Lb(sub_expr) => Ok(eval(*sub_expr)?
-            .checked_ln()
-            .ok_or("The logarithm is only defined for positive numbers")?
-            .checked_div(Decimal::new(2, 0).ln())
-            .ok_or("Decimal overflow")?),
-        Exp(sub_expr) => Ok(eval(*sub_expr)?.checked_exp().ok_or("Decimal overflow")?),
-        Exp2(sub_expr) => Ok(Decimal::new(2, 0)
-            .checked_powd(eval(*sub_expr)?)
-            .ok_or("Decimal overflow")?),
-        Pow(expr1, expr2) => Ok(eval(*expr1)?
-            .checked_powd(eval(*expr2)?)
-            .ok_or("Decimal overflow")?),
-        Log(expr1, expr2) => {
-            let x = eval(*expr1)?;
-            let base = eval(*expr2)?;
-            let ln_x = x
-                .checked_ln()
-                .ok_or("The logarithm is only defined for positive numbers")?;
-            let ln_base = base
-                .checked_ln()
-                .ok_or("The logarithm is only defined for positive numbers")?;
-            Ok(ln_x
-                .checked_div(ln_base)
-                .ok_or("Division by zero or decimal overflow")?)
-        }
-        Factorial(sub_expr) => {
-            let sub_result = eval(*sub_expr)?;
-            if sub_result >= Decimal::ZERO {
-                if (sub_result % Decimal::new(1, 0)) > Decimal::ZERO {
-                    Ok(gamma(sub_result + Decimal::new(1, 0)).ok_or("Decimal overflow")?)
-                } else {
-                    let mut factorial_result = Decimal::new(1, 0);
-                    for i in 2..=sub_result.to_i64().ok_or("Decimal overflow")? {
-                        #[cfg(feature = "verif_hooks")]
-                        crate::verif_hooks::tick_loop();
-                        factorial_result = factorial_result
-                            .checked_mul(Decimal::new(i, 0))
-                            .ok_or("Decimal overflow")?;
-                    }
-                    Ok(factorial_result)
-                }
-            } else if (sub_result % Decimal::new(1, 0)) == Decimal::ZERO {
-                return Err("The factorial function is not defined for {}.".into());
-            } else {
-                Ok(gamma(sub_result + Decimal::new(1, 0)).ok_or("Decimal overflow")?)
-            }
-        }
-        LambertW(expr) => {
-            let sub_expr = eval(*expr)?;
-            if sub_expr < -Decimal::new(-1, 0).exp() {
-                return Err("The Lambert W function is not defined for {}.".into());
-            }
-            // The iteration is carried out in double precision: it converges to rounding error there
-            // and cannot leave the Decimal range on the way.
-            let x = sub_expr.to_f64().ok_or("Decimal overflow")?;
-            Ok(Decimal::from_f64(lambert_w0(x)).ok_or("Decimal overflow")?)
-        }
-        ILog(expr1, expr2) => {
-            let mut n = eval(*expr1)?;
-            let b = eval(*expr2)?;
-            let mut x = Decimal::ZERO;
-            while n > Decimal::new(1, 0) {
-                #[cfg(feature = "verif_hooks")]
-                crate::verif_hooks::tick_loop();
-                x += Decimal::new(1, 0);
-                let next = n
-                    .checked_log10()
-                    .and_then(|log_n| log_n.checked_div(b.checked_log10()?))
-                    .ok_or("The iterated logarithm is not defined for this base.")?
-                    .floor();
-                if next >= n {
-                    return Err("The iterated logarithm does not terminate for this base.".into());
-                }
-                n = next;
-            }
-            Ok(x)
-        }
-        Sqrt(sub_expr) => match eval(*sub_expr)?.sqrt() {
-            Some(result) => Ok(result),
-            None => Err("Unable to compute the square root of negative number".into()),
-        },
+        Ln(sub_expr) => ln(eval(*sub_expr)?),
+        Lb(sub_expr) => lb(eval(*sub_expr)?),
+        Exp(sub_expr) => exp(eval(*sub_expr)?),
+        Exp2(sub_expr) => pow(Decimal::new(2, 0), eval(*sub_expr)?),
+        Pow(expr1, expr2) => pow(eval(*expr1)?, eval(*expr2)?),
+        Log(expr1, expr2) => log(eval(*expr1)?, eval(*expr2)?),
+        Factorial(sub_expr) => factorial(eval(*sub_expr)?),
+        LambertW(expr) => lambert_w(eval(*expr)?),
+        ILog(expr1, expr2) => ilog(eval(*expr1)?, eval(*expr2)?),
+        Sqrt(sub_expr) => sqrt(eval(*sub_expr)?),
         Root(n_th_expr, x_expr) => {
             let x = eval(*x_expr)?;
-            let exponent = Decimal::new(1, 0)
-                .checked_div(eval(*n_th_expr)?)
-                .ok_or("Division by zero")?;
-            Ok(x.checked_powd(exponent).ok_or("Decimal overflow")?)
+            root(eval(*n_th_expr)?, x)
         }
-        Min(args) => {
-            if args.len() > 1 {
-                let mut result = Decimal::MAX;
-                for arg in <Vec<Node> as Clone>::clone(&args).into_iter() {
-                    result = eval(arg)?.min(result);
-                }
-                Ok(result)
-            } else {
-                match args.first() {
-                    Some(arg) => Ok(eval((*arg).clone())?),
-                    None => Ok(Decimal::ZERO),
-                }
-            }
-        }
-        Max(args) => {
-            if args.len() > 1 {
-                let mut result = Decimal::MIN;
-                for arg in <Vec<Node> as Clone>::clone(&args).into_iter() {
-                    result = eval(arg)?.max(result);
-                }
-                Ok(result)
-            } else {
-                match args.first() {
-                    Some(arg) => Ok(eval((*arg).clone())?),
-                    None => Ok(Decimal::ZERO),
-                }
-            }
-        }
-        Avg(args) => {
-            let mut result = Decimal::ZERO;
-            for arg in <Vec<Node> as Clone>::clone(&args).into_iter() {
-                result = result.checked_add(eval(arg)?).ok_or("Decimal overflow")?;
-            }
-            Ok(result / Decimal::new(args.len() as i64, 0))
-        }
-        Med(args) => {
-            let mut results = vec![];
-            for arg in <Vec<Node> as Clone>::clone(&args).into_iter() {
-                results.push(eval(arg)?);
-            }
-            results.sort_by(|a, b| a.partial_cmp(b).unwrap());
-            let len = results.len();
-            if len % 2 == 0 {
-                Ok(results[len >> 1]
-                    .checked_add(results[(len >> 1) - 1])
-                    .ok_or("Decimal overflow")?
-                    / Decimal::new(2, 0))
-            } else {
-                Ok(results[len >> 1])
-            }
-        }
+        Min(args) => min(eval_all(args)?),
+        Max(args) => max(eval_all(args)?),
+        Avg(args) => avg(eval_all(args)?),
+        Med(args) => med(eval_all(args)?),
     }
 }
 
